@@ -360,3 +360,616 @@ Lemma pend_ok_weaken : forall F G m LH LH' p, pend_ok F G m LH p -> LH <= LH' ->
 Proof.
   intros F G m LH LH' p (t & A & B) L. exists t. split; [exact A|]. eapply succ_ok_weaken; [exact B|lia].
 Qed.
+
+Lemma case_while : forall c body, Pe c -> Forall Ps body -> Pe (EWhile c body).
+Proof.
+  intros c body IHc IHb st st' m h LH We H P. cbn [wf_expr] in We.
+  apply andb_prop in We. destruct We as [Wc Wb].
+  pose proof (pr_inv _ _ _ _ _ P) as I0. pose proof (pr_wf _ _ _ _ _ P) as W0. pose proof (pr_h _ _ _ _ _ P) as H0.
+  pose proof (pr_LH _ _ _ _ _ P) as HL. pose proof (code_len_nonneg st) as N0.
+  rewrite ce_while in H. bok H st3 H3. bok H st5 H5. bok H back Hback. bok H tg Htg. bok H st8 H8.
+  apply operand_ok in Hback. destruct Hback as [-> Lback]. rewrite len_emit1 in Lback.
+  apply operand_ok in Htg. destruct Htg as [-> Ltg].
+  rewrite len_emit1 in *.
+  set (start := code_len st + 1) in *.
+  destruct (while_enter_facts st I0) as (I2 & L2 & Lo2 & B2). fold start in L2, Lo2.
+  set (st2 := while_enter st) in *.
+  assert (W2 : wf_tab (c_symbols st2)) by exact W0.
+  assert (M02 : mono st st2) by (apply mono_same; [exact W0|reflexivity..]).
+  assert (BN : byte_at st2 (code_len st) = Some (byte_of_opcode ONull)).
+  { change (byte_at st2 (code_len st)) with (byte_at (emit_opcode ONull st) (code_len st)).
+    exact (app_of_head _ _ _ _ (app_emit_opcode ONull st)). }
+  (* condition *)
+  pose proof (expr_frame c st2 st3 Wc I2 W2 H3) as F3. pose proof (fr_len _ _ _ F3) as L3.
+  (* JumpIfFalse, Pop *)
+  set (st4 := emit_opcode OPop (jump_ph OJumpIfFalse st3)) in *.
+  assert (A4 : app_of st3 st4 [byte_of_opcode OJumpIfFalse; JUMP_PLACEHOLDER mod 256; (JUMP_PLACEHOLDER / 256) mod 256;
+                               byte_of_opcode OPop]).
+  { exact (app_of_trans _ _ _ _ _ (app_emit3 OJumpIfFalse JUMP_PLACEHOLDER st3) (app_emit_opcode OPop _)). }
+  pose proof (app_frame _ _ _ A4 ltac:(unfold zlength; cbn [length]; lia) (fr_inv _ _ _ F3) (fr_wf _ _ _ F3) eq_refl eq_refl) as F4.
+  pose proof (app_of_len _ _ _ A4) as L4. change (zlength _) with 4 in L4.
+  (* body *)
+  pose proof (block_value_frame body st4 st5 Wb (fr_inv _ _ _ F4) (fr_wf _ _ _ F4) H5) as F5.
+  pose proof (fr_len _ _ _ F5) as L5.
+  (* back jump *)
+  set (st7 := emit_u16 start (emit_opcode OJump st5)) in *.
+  pose proof (app_emit3 OJump start st5) as A7. fold st7 in A7.
+  pose proof (app_frame _ _ _ A7 ltac:(zl3) (fr_inv _ _ _ F5) (fr_wf _ _ _ F5) eq_refl eq_refl) as F7.
+  pose proof (len_emit3 OJump start st5) as L7. fold st7 in L7.
+  (* patch of the JumpIfFalse *)
+  assert (B7 : forall k, (k < 4)%nat -> byte_at st7 (code_len st3 + Z.of_nat k) =
+             nth_error [byte_of_opcode OJumpIfFalse; JUMP_PLACEHOLDER mod 256; (JUMP_PLACEHOLDER / 256) mod 256;
+                        byte_of_opcode OPop] k).
+  { intros k Hk. rewrite (sp_pre _ _ _ (fr_ps _ _ _ F7)) by lia. rewrite (sp_pre _ _ _ (fr_ps _ _ _ F5)) by lia.
+    exact (app_of_bytes _ _ _ k A4 Hk). }
+  assert (P8 : patch_res (code_len st3) (code_len st7) st7 st8).
+  { eapply patch_facts; [exact H8|lia| |exact jump_byte_jif| | |exact (fr_inv _ _ _ F7)|exact (fr_wf _ _ _ F7)].
+    - pose proof (B7 0%nat ltac:(lia)) as X. rewrite Z.add_0_r in X. exact X.
+    - exact (B7 1%nat ltac:(lia)).
+    - exact (B7 2%nat ltac:(lia)). }
+  pose proof (pt_len _ _ _ _ P8) as L8.
+  (* the loop context pushed on entry is still the innermost one *)
+  assert (LE : loops_ext (code_len st2) (c_loops st2) (c_loops st8)).
+  { rewrite (pt_loops _ _ _ _ P8). change (c_loops st7) with (c_loops st5).
+    apply (loops_ext_trans (code_len st2) (code_len st4) _ (c_loops st3));
+      [lia|exact (sp_loops _ _ _ (fr_ps _ _ _ F3))|exact (sp_loops _ _ _ (fr_ps _ _ _ F5))]. }
+  rewrite Lo2 in LE. apply loops_ext_snoc_inv in LE. destruct LE as (L' & c' & EL8 & LE' & CE).
+  destruct CE as (Sc' & extra & EB & FE). cbn [l_start l_breaks app] in Sc', EB.
+  unfold while_exit in H. rewrite EL8, rev_app_distr in H. cbn [rev app] in H. rewrite rev_involutive in H.
+  set (st9 := set_loops st8 L') in *.
+  assert (I9 : binv (brk (L' ++ [c'])) st9).
+  { pose proof (pt_inv _ _ _ _ P8) as X. unfold code_inv in X. rewrite EL8 in X.
+    eapply binv_same; [exact X|reflexivity|reflexivity]. }
+  destruct (fold_patch_vals (brk (L' ++ [c'])) (l_breaks c') st9 st' I9
+              (fun q Hq => proj2 (brk_snoc L' c' q) (or_intror Hq)) H) as (Is & Ls & Los & Lla & Lsy & Lk & Bs & Vs).
+  change (code_len st9) with (code_len st8) in *. cbn [st9 set_loops c_loops c_symbols c_constants c_last] in Los, Lla, Lsy, Lk.
+  assert (I' : code_inv st').
+  { unfold code_inv. rewrite Los. eapply binv_weaken; [|exact Is]. intros p Hp. apply brk_snoc. left. exact Hp. }
+  assert (M8' : mono st8 st') by (apply mono_same; [exact (pt_wf _ _ _ _ P8)|exact Lsy|exact Lk]).
+  (* monotonicity towards the end *)
+  pose proof (mono_trans _ _ _ (pt_mono _ _ _ _ P8) M8') as M7. pose proof (mono_trans _ _ _ (fr_mono _ _ _ F7) M7) as M5.
+  pose proof (mono_trans _ _ _ (fr_mono _ _ _ F5) M5) as M4. pose proof (mono_trans _ _ _ (fr_mono _ _ _ F4) M4) as M3.
+  assert (Em2 : mode_of st2 = mode_of st) by reflexivity.
+  assert (Em4 : mode_of st4 = mode_of st).
+  { rewrite (pre_frame_mode _ _ _ F4), (pre_frame_mode _ _ _ F3). exact Em2. }
+  (* the two parts: the bound of the new loop is h *)
+  destruct (IHc st2 st3 m (h + 1) h Wc H3) as [Cc Sc].
+  { split; [exact I2|exact W2|rewrite (pr_mode _ _ _ _ _ P); symmetry; exact Em2|lia|lia|].
+    eapply lb_mono; [exact M3|exact (pr_lb _ _ _ _ _ P)|lia]. }
+  destruct (bv_seg body IHb st4 st5 m h h Wb H5) as [[Cb Sb] L5'].
+  { split; [exact (fr_inv _ _ _ F4)|exact (fr_wf _ _ _ F4)|rewrite (pr_mode _ _ _ _ _ P); symmetry; exact Em4|lia|lia|].
+    eapply lb_mono; [exact M5|exact (pr_lb _ _ _ _ _ P)|lia]. }
+  pose proof (sg_contig _ _ _ _ _ _ _ Sc) as Hcc. pose proof (sg_contig _ _ _ _ _ _ _ Sb) as Hcb.
+  set (st3a := jump_ph OJumpIfFalse st3) in *.
+  pose proof (jump_ph_frame OJumpIfFalse st3 (fr_inv _ _ _ F3) (fr_wf _ _ _ F3)) as F3a. fold st3a in F3a.
+  pose proof (len_emit3 OJumpIfFalse JUMP_PLACEHOLDER st3) as L3a. fold (jump_ph OJumpIfFalse st3) in L3a. fold st3a in L3a.
+  pose proof (emit1_frame OPop st3a (fr_inv _ _ _ F3a) (fr_wf _ _ _ F3a)) as F3b. fold st4 in F3b.
+  set (N := (code_len st, 1, m, h) : centry).
+  set (J1 := (code_len st3, 3, m, h + 1 + 1) : centry). set (Pp := (code_len st3a, 1, m, h + 1) : centry).
+  set (J2 := (code_len st5, 3, m, h + 1) : centry).
+  exists ((((([N] ++ Cc) ++ [J1]) ++ [Pp]) ++ Cb) ++ [J2]).
+  (* shape *)
+  assert (ShN : shape st st2 m [N]).
+  { split.
+    - rewrite L2. apply contig_single. lia.
+    - apply kfun_new_same. auto.
+    - intros p Hp Lp. rewrite Lo2 in Hp. apply brk_snoc in Hp. destruct Hp as [Hp|[]].
+      destruct (bi_at _ _ I0 p Hp) as (_ & X & _). lia. }
+  set (C := ((((([N] ++ Cc) ++ [J1]) ++ [Pp]) ++ Cb) ++ [J2])).
+  assert (Sh8 : shape st st8 m C).
+  { eapply shape_app_patch; [|exact P8|exact (fr_inv _ _ _ F7)].
+    eapply shape_app_frame; [|apply (shape_emit st5 st7 _ m (h + 1) A7); [zl3|exact (fr_inv _ _ _ F5)|reflexivity]|exact F7].
+    eapply shape_app_frame; [|exact (shape_seg _ _ _ _ _ _ _ Sb)|exact F5].
+    eapply shape_app_frame; [|apply (shape_emit st3a st4 _ m (h + 1) (app_emit_opcode OPop st3a));
+                              [reflexivity|exact (fr_inv _ _ _ F3a)|reflexivity]|exact F3b].
+    eapply shape_app_frame; [|apply (shape_emit st3 st3a _ m (h + 1 + 1) (app_emit3 OJumpIfFalse JUMP_PLACEHOLDER st3));
+                              [zl3|exact (fr_inv _ _ _ F3)|reflexivity]|exact F3a].
+    eapply shape_app_frame; [exact ShN|exact (shape_seg _ _ _ _ _ _ _ Sc)|exact F3]. }
+  assert (Sh : shape st st' m C).
+  { rewrite <- (app_nil_r C). eapply (shape_app' (code_len st8)); [exact Sh8| | |apply Z.le_refl].
+    - split.
+      + rewrite Ls. constructor.
+      + apply kfun_new_same. rewrite Lk. auto.
+      + intros p Hp Lp. rewrite Los in Hp.
+        assert (X : brk (c_loops st8) p) by (rewrite EL8; apply brk_snoc; left; exact Hp).
+        destruct (bi_at _ _ (pt_inv _ _ _ _ P8) p X) as (_ & Y & _). lia.
+    - intros p Hp. left. rewrite Los in Hp. rewrite EL8. apply brk_snoc. left. exact Hp. }
+  destruct Sh as [Sh1 Sh2 Sh3]. split; [exact Sh1|split; reflexivity|exact Sh2|exact Sh3|].
+  (* the recorded stop jumps of this loop *)
+  set (Q := l_breaks c') in *.
+  assert (Lo85 : c_loops st8 = c_loops st5) by (rewrite (pt_loops _ _ _ _ P8); reflexivity).
+  assert (Q8 : forall q, In q Q -> brk (c_loops st8) q).
+  { intros q Hq. rewrite EL8. apply brk_snoc. right. exact Hq. }
+  assert (Qlo : forall q, In q Q -> code_len st2 <= q /\ q + 2 < code_len st5).
+  { intros q Hq. split.
+    - rewrite EB in Hq. rewrite Forall_forall in FE. exact (FE q Hq).
+    - pose proof (Q8 q Hq) as X. rewrite Lo85 in X. destruct (bi_at _ _ (fr_inv _ _ _ F5) q X) as (_ & Y & _). exact Y. }
+  assert (Qent : forall q, In q Q -> exists hq, In (q, 3, m, hq) C).
+  { intros q Hq. apply (sh_brk _ _ _ _ Sh8 q (Q8 q Hq)). destruct (Qlo q Hq). lia. }
+  assert (Byt8 : forall i, 0 <= i -> (forall q, In q Q -> i <> q + 1 /\ i <> q + 2) -> byte_at st' i = byte_at st8 i).
+  { intros i Hi Hq. rewrite (Bs i Hi Hq). reflexivity. }
+  assert (T8 : code_len st8 < 2 ^ 16) by lia.
+  (* bytes from the intermediate buffers to the final one *)
+  assert (Byt7 : forall i, 0 <= i -> i <> code_len st3 + 1 -> i <> code_len st3 + 2 ->
+            (forall q, In q Q -> i <> q + 1 /\ i <> q + 2) -> byte_at st' i = byte_at st7 i).
+  { intros i Hi N1 N2 Hq. rewrite (Byt8 i Hi Hq). apply (pa_bytes _ _ _ (pt_patched _ _ _ _ P8)); assumption. }
+  assert (Byt5 : forall i, 0 <= i < code_len st5 -> i <> code_len st3 + 1 -> i <> code_len st3 + 2 ->
+            (forall q, In q Q -> i <> q + 1 /\ i <> q + 2) -> byte_at st' i = byte_at st5 i).
+  { intros i Hi N1 N2 Hq. rewrite (Byt7 i ltac:(lia) N1 N2 Hq). apply (sp_pre _ _ _ (fr_ps _ _ _ F7)). lia. }
+  assert (Byt3 : forall i, 0 <= i < code_len st3 ->
+            (forall q, In q Q -> i <> q + 1 /\ i <> q + 2) -> byte_at st' i = byte_at st3 i).
+  { intros i Hi Hq. rewrite (Byt5 i ltac:(lia) ltac:(lia) ltac:(lia) Hq).
+    rewrite (sp_pre _ _ _ (fr_ps _ _ _ F5)) by lia. apply (sp_pre _ _ _ (fr_ps _ _ _ F4)). lia. }
+  (* an entry of C that is not one of the recorded jumps keeps clear of their operands *)
+  assert (Clear : forall x, In x C -> forall q, In q Q -> e_pc x <> q ->
+            forall i, e_pc x <= i < e_pc x + e_w x -> i <> q + 1 /\ i <> q + 2).
+  { intros x Hx q Hq Nq i Hi. destruct (Qent q Hq) as [hq Hy].
+    destruct (contig_disjoint _ _ _ _ _ Sh1 Hx Hy) as [->|[D|D]]; cbn [e_pc e_w fst snd] in *; [contradiction|lia|lia]. }
+  assert (ClearPc : forall x, In x C -> forall q, In q Q -> e_pc x <> q + 1 /\ e_pc x <> q + 2).
+  { intros x Hx q Hq. destruct (Qent q Hq) as [hq Hy]. pose proof (contig_range _ _ _ _ Sh1 Hx) as Rx.
+    destruct (contig_disjoint _ _ _ _ _ Sh1 Hx Hy) as [->|[D|D]]; cbn [e_pc e_w fst snd] in *; lia. }
+  intros F K G KL GL HE LO.
+  unfold ex in HE. rewrite Ls in HE.
+  (* transport of the entries of a part compiled inside the loop *)
+  assert (TR : forall sk, code_len sk <= code_len st5 ->
+            (forall i, 0 <= i < code_len sk -> i <> code_len st3 + 1 -> i <> code_len st3 + 2 ->
+                       (forall q, In q Q -> i <> q + 1 /\ i <> q + 2) -> byte_at st' i = byte_at sk i) ->
+            loops_ext (code_len sk) (c_loops sk) (c_loops st8) ->
+            forall x, In x C -> 0 <= e_pc x -> e_pc x + e_w x <= code_len sk ->
+              (forall i, e_pc x <= i < e_pc x + e_w x -> i <> code_len st3 + 1 /\ i <> code_len st3 + 2) ->
+              ent_ok F K G sk m h x -> ent_ok F K G st' m LH x).
+  { intros sk Lsk Bsk LEk x Hx P0 Px N3 Hk. pose proof (contig_range _ _ _ _ Sh1 Hx) as Rx.
+    apply (ent_ok_raw F K G sk st' m h m LH x Hk).
+    - unfold agree. intros A. rewrite A. apply Bsk; [lia|apply N3; lia|apply N3; lia|].
+      intros q Hq. exact (ClearPc x Hx q Hq).
+    - intros NB A2 i Hi.
+      assert (NB' : ~ brk (c_loops st') (e_pc x)).
+      { rewrite Los. intros X. assert (Y : brk (c_loops st8) (e_pc x)) by (rewrite EL8; apply brk_snoc; left; exact X).
+        destruct (loops_ext_brk _ _ _ _ LEk Y) as [Z|Z]; [exact (NB Z)|lia]. }
+      unfold agree in *. rewrite (A2 NB' i Hi). apply Bsk; [lia|apply N3; exact Hi|apply N3; exact Hi|].
+      intros q Hq. apply (Clear x Hx q Hq); [|exact Hi].
+      intros E. apply NB. pose proof (Q8 q Hq) as Y. rewrite <- E in Y.
+      destruct (loops_ext_brk _ _ _ _ LEk Y) as [Z|Z]; [exact Z|lia].
+    - intros B A1 A2 A3. destruct (brk_dec (c_loops st') (e_pc x)) as [Y|Y].
+      + eapply pend_ok_weaken; [exact (A3 Y)|exact HL].
+      + pose proof (loops_ext_brk_mono _ _ _ _ LEk B) as B8. rewrite EL8 in B8. apply brk_snoc in B8.
+        destruct B8 as [B8|B8]; [exfalso; apply Y; rewrite Los; exact B8|].
+        destruct (Qent _ B8) as [hq Hy]. pose proof (contig_same_pc _ _ _ _ _ Sh1 Hx Hy eq_refl) as Ex.
+        destruct (Vs _ B8) as (_ & V1 & V2).
+        exists (code_len st8). split; [|exact HE].
+        apply (rd16_of (fbyte F)); [|lia]. unfold agree in A2. split.
+        * rewrite (A2 Y (e_pc x + 1)); [exact V1|]. rewrite Ex. cbn. lia.
+        * replace (e_pc x + 1 + 1) with (e_pc x + 2) by lia. rewrite (A2 Y (e_pc x + 2)); [exact V2|]. rewrite Ex. cbn. lia. }
+  (* heads *)
+  destruct (contig_hd _ _ _ _ _ Hcc ltac:(lia) (sg_hd _ _ _ _ _ _ _ Sc)) as (wc & Cc' & ECc).
+  destruct (contig_hd _ _ _ _ _ Hcb L5' (sg_hd _ _ _ _ _ _ _ Sb)) as (wb & Cb' & ECb).
+  assert (InN : In N C) by (unfold C; do 5 (apply in_or_app; left); left; reflexivity).
+  assert (InCc : forall y, In y Cc -> In y C) by (intros y Hy; unfold C; do 4 (apply in_or_app; left); apply in_or_app; right; exact Hy).
+  assert (InJ1 : In J1 C) by (unfold C; do 3 (apply in_or_app; left); apply in_or_app; right; left; reflexivity).
+  assert (InPp : In Pp C) by (unfold C; do 2 (apply in_or_app; left); apply in_or_app; right; left; reflexivity).
+  assert (InCb : forall y, In y Cb -> In y C) by (intros y Hy; unfold C; apply in_or_app; left; apply in_or_app; right; exact Hy).
+  assert (InJ2 : In J2 C) by (unfold C; apply in_or_app; right; left; reflexivity).
+  assert (Gs : succ_ok G m start (h + 1) = true).
+  { rewrite <- L2. apply (GL (code_len st2, wc, m, h + 1)). apply InCc. rewrite ECc. left. reflexivity. }
+  assert (Gb : succ_ok G m (code_len st4) h = true).
+  { apply (GL (code_len st4, wb, m, h)). apply InCb. rewrite ECb. left. reflexivity. }
+  assert (St2 : map l_start (c_loops st2) = map l_start (c_loops st) ++ [start]).
+  { rewrite Lo2, map_app. reflexivity. }
+  assert (LOc : loop_ok G st3 m h).
+  { eapply loop_ok_inner; [|exact Gs]. rewrite (starts_frame _ _ _ F3). exact St2. }
+  assert (LOb : loop_ok G st5 m h).
+  { eapply loop_ok_inner; [|exact Gs]. rewrite (starts_frame _ _ _ F5). change (c_loops st4) with (c_loops st3).
+    rewrite (starts_frame _ _ _ F3). exact St2. }
+  pose proof (code_len_nonneg st3) as N3'.
+  intros x Hx. unfold C in Hx.
+  apply in_app_or in Hx. destruct Hx as [Hx|Hx]; [apply in_app_or in Hx; destruct Hx as [Hx|Hx];
+    [apply in_app_or in Hx; destruct Hx as [Hx|Hx]; [apply in_app_or in Hx; destruct Hx as [Hx|Hx];
+      [apply in_app_or in Hx; destruct Hx as [Hx|Hx]|]|]|]|].
+  - (* ONull *)
+    destruct Hx as [<-|[]].
+    assert (BY : byte_at st' (code_len st) = Some (byte_of_opcode ONull)).
+    { rewrite Byt3; [|lia|intros q Hq; destruct (Qlo q Hq); lia].
+      rewrite (sp_pre _ _ _ (fr_ps _ _ _ F3)) by lia. exact BN. }
+    apply (ent_ok_bytes F K G st' [byte_of_opcode ONull]).
+    + intros k Hk. cbn [length] in Hk. assert (k = 0%nat) by lia. subst k. rewrite Z.add_0_r. exact BY.
+    + eapply brk_not_at; [exact I'|exact BY|vm_compute; discriminate].
+    + intros HB LF. eapply iok_simple with (op := ONull); [reflexivity|exact HB|exact LF|exact H0|exact Gs].
+  - (* condition *)
+    pose proof (contig_range _ _ _ _ Hcc Hx) as Rx.
+    apply (TR st3); [lia|intros i Hi _ _ Hq; apply Byt3; assumption| |apply InCc; exact Hx|lia|lia|intros i Hi; lia|].
+    + rewrite Lo85. change (c_loops st3) with (c_loops st4). eapply loops_ext_weaken; [|exact (sp_loops _ _ _ (fr_ps _ _ _ F5))]. lia.
+    + apply (sg_typed _ _ _ _ _ _ _ Sc F K G); [exact (Z.le_trans _ _ _ (klen_mono _ _ M3) KL)| | |exact LOc|exact Hx].
+      * intros y Hy. apply GL. apply InCc. exact Hy.
+      * exact (GL J1 InJ1).
+  - (* JumpIfFalse *)
+    destruct Hx as [<-|[]].
+    assert (NQ : forall q, In q Q -> code_len st3 <> q).
+    { intros q Hq E. pose proof (Q8 q Hq) as X. rewrite <- E in X.
+      destruct (bi_at _ _ (pt_inv _ _ _ _ P8) _ X) as (_ & _ & Y).
+      rewrite (pa_bytes _ _ _ (pt_patched _ _ _ _ P8)) in Y by lia.
+      pose proof (B7 0%nat ltac:(lia)) as Z. rewrite Z.add_0_r in Z. rewrite Z in Y. discriminate Y. }
+    assert (BJ : bytes_at st' (code_len st3) (u16b OJumpIfFalse (code_len st7))).
+    { apply bytes_at_3.
+      - rewrite Byt7; [|lia|lia|lia|intros q Hq; exact (ClearPc J1 InJ1 q Hq)].
+        pose proof (B7 0%nat ltac:(lia)) as Z. rewrite Z.add_0_r in Z. exact Z.
+      - rewrite Byt8; [exact (pt_lo _ _ _ _ P8)|lia|].
+        intros q Hq. apply (Clear J1 InJ1 q Hq (NQ q Hq)). cbn. lia.
+      - rewrite Byt8; [exact (pt_hi _ _ _ _ P8)|lia|].
+        intros q Hq. apply (Clear J1 InJ1 q Hq (NQ q Hq)). cbn. lia. }
+    apply (ent_ok_bytes F K G st' (u16b OJumpIfFalse (code_len st7))); [exact BJ| |].
+    + eapply brk_not_at with (b := byte_of_opcode OJumpIfFalse); [exact I'| |vm_compute; discriminate].
+      pose proof (BJ 0%nat ltac:(cbn; lia)) as Z. rewrite Z.add_0_r in Z. exact Z.
+    + intros HB LF. eapply iok_jif; [exact HB|exact LF|pose proof (code_len_nonneg st7); lia|lia| |].
+      * replace (code_len st3 + 3) with (code_len st3a) by lia. replace (h + 1 + 1 - 1) with (h + 1) by lia.
+        exact (GL Pp InPp).
+      * replace (h + 1 + 1 - 1) with (h + 1) by lia. rewrite <- L8. exact HE.
+  - (* OPop *)
+    destruct Hx as [<-|[]].
+    assert (NQ : forall q, In q Q -> code_len st3a <> q).
+    { intros q Hq E. destruct (Qent q Hq) as [hq Hy].
+      pose proof (contig_same_pc _ _ _ _ _ Sh1 InPp Hy E) as X. unfold Pp in X. injection X as _ X _. discriminate X. }
+    assert (BY : byte_at st' (code_len st3a) = Some (byte_of_opcode OPop)).
+    { rewrite Byt7; [|lia|lia|lia|intros q Hq; exact (ClearPc Pp InPp q Hq)].
+      replace (code_len st3a) with (code_len st3 + Z.of_nat 3) by lia. exact (B7 3%nat ltac:(lia)). }
+    apply (ent_ok_bytes F K G st' [byte_of_opcode OPop]).
+    + intros k Hk. cbn [length] in Hk. assert (k = 0%nat) by lia. subst k. rewrite Z.add_0_r. exact BY.
+    + eapply brk_not_at; [exact I'|exact BY|vm_compute; discriminate].
+    + intros HB LF. eapply iok_simple with (op := OPop); [reflexivity|exact HB|exact LF|lia|].
+      replace (code_len st3a + 1) with (code_len st4) by lia. replace (h + 1 + -1) with h by lia. exact Gb.
+  - (* body *)
+    pose proof (contig_range _ _ _ _ Hcb Hx) as Rx.
+    apply (TR st5); [lia|intros i Hi X1 X2 Hq; apply Byt5; assumption| |apply InCb; exact Hx|lia|lia|intros i Hi; lia|].
+    + rewrite Lo85. apply loops_ext_refl.
+    + apply (sg_typed _ _ _ _ _ _ _ Sb F K G); [exact (Z.le_trans _ _ _ (klen_mono _ _ M5) KL)| | |exact LOb|exact Hx].
+      * intros y Hy. apply GL. apply InCb. exact Hy.
+      * exact (GL J2 InJ2).
+  - (* Jump back *)
+    destruct Hx as [<-|[]].
+    assert (BJ : bytes_at st' (code_len st5) (u16b OJump start)).
+    { intros k Hk. cbn [length u16b] in Hk. rewrite Byt7; [exact (app_of_bytes _ _ _ k A7 Hk)|lia|lia|lia|].
+      intros q Hq. destruct (Qlo q Hq). lia. }
+    apply (ent_ok_bytes F K G st' (u16b OJump start)); [exact BJ| |].
+    + rewrite Los. intros X. assert (Y : brk (c_loops st8) (code_len st5)) by (rewrite EL8; apply brk_snoc; left; exact X).
+      rewrite Lo85 in Y. destruct (bi_at _ _ (fr_inv _ _ _ F5) _ Y) as (_ & Z & _). lia.
+    + intros HB LF. eapply iok_jump; [exact HB|exact LF|unfold start; lia|exact Gs].
+Qed.
+
+(** * 4. functie *)
+
+Lemma last_is_rv : forall st, last_instruction_is OReturnValue st = true -> c_last st = Some OReturnValue.
+Proof.
+  intros st. unfold last_instruction_is. destruct (c_last st) as [o|]; [|discriminate].
+  destruct o; cbn [opcode_eqb]; intros H; try discriminate H; reflexivity.
+Qed.
+
+Lemma loops_ext_nil : forall n l, loops_ext n [] l -> l = [].
+Proof. intros n l H. inversion H. reflexivity. Qed.
+
+(* the finished body of a function literal: its entries, acceptable relative to the buffer of
+   fun_finish (..) taken without loop contexts; nothing falls out of the body, so no exit condition *)
+Definition fbody (s0 st4 st6 : cstate) (NL : Z) (Cf : list centry) : Prop :=
+  contig (code_len s0) Cf (code_len st6) /\ hd_ok true NL Cf /\ Cf <> [] /\ kfun_new s0 st4 Cf /\
+  forall F K G, zlength (c_constants st4) <= zlength K -> (forall x, In x Cf -> gle G x) ->
+    forall x, In x Cf -> ent_ok F K G (set_loops st6 []) true NL x.
+
+Lemma loop_ok_nil : forall G st m LH, c_loops st = [] -> loop_ok G st m LH.
+Proof. intros G st m LH E s rest R. rewrite E in R. discriminate R. Qed.
+
+Lemma body_finished : forall body, Forall Ps body -> forall s0 st4 outer, forallb wfs body = true ->
+  block_statement body s0 = Ok st4 -> c_loops s0 = [] -> wf_tab (c_symbols s0) -> mode_of s0 = true ->
+  exists Cf, fbody s0 st4 (fun_finish (set_loops st4 outer)) (Z.of_nat (c_max (current (c_symbols st4)))) Cf.
+Proof.
+  intros body Hb s0 st4 outer Wb H EL0 W0 Em0.
+  set (NL := Z.of_nat (c_max (current (c_symbols st4)))).
+  assert (HNL : 0 <= NL) by (unfold NL; lia).
+  pose proof (code_inv_no_loops s0 EL0) as I0.
+  pose proof (block_statement_frame body s0 st4 Wb I0 W0 H) as F4. pose proof (fr_len _ _ _ F4) as L4.
+  assert (EL4 : c_loops st4 = []).
+  { pose proof (sp_loops _ _ _ (fr_ps _ _ _ F4)) as X. rewrite EL0 in X. exact (loops_ext_nil _ _ X). }
+  pose proof (code_len_nonneg s0) as N0.
+  set (st5 := set_loops st4 outer).
+  unfold block_statement in H. destruct (is_nil body) eqn:EN.
+  - (* empty body: ONull; OReturn *)
+    injection H as <-. 
+    assert (E6 : fun_finish st5 = emit_opcode OReturn st5) by reflexivity.
+    rewrite E6. set (st4 := emit_opcode ONull s0) in *.
+    assert (S1 : seg s0 st4 true NL NL (ex true (code_len st4) (NL + 1)) [(code_len s0, 1, true, NL)]).
+    { apply (seg_simple ONull 0 1); [reflexivity|exact I0|lia|reflexivity]. }
+    pose proof (emit1_frame OReturn st4 (fr_inv _ _ _ F4) (fr_wf _ _ _ F4)) as F5.
+    assert (S2 : seg s0 (emit_opcode OReturn st4) true NL NL noex ([(code_len s0, 1, true, NL)] ++ [(code_len st4, 1, true, NL + 1)])).
+    { eapply seg_app1; [exact S1|apply seg_return; exact (fr_inv _ _ _ F4)|exact F5|lia|lia]. }
+    eexists. split; [|split; [|split; [|split]]].
+    + exact (sg_contig _ _ _ _ _ _ _ S2).
+    + exact (sg_hd _ _ _ _ _ _ _ S2).
+    + discriminate.
+    + apply kfun_new_same. auto.
+    + intros F K G KL GL x Hx.
+      assert (X : ent_ok F K G (emit_opcode OReturn st4) true NL x).
+      { apply (sg_typed _ _ _ _ _ _ _ S2 F K G); [exact KL|exact GL|exact I| |exact Hx].
+        apply loop_ok_nil. exact EL4. }
+      intros A1 A2 A3 A4. apply X.
+      * exact A1.
+      * intros N. apply A2. cbn [set_loops c_loops]. apply brk_nil.
+      * intros B. exfalso. cbn [emit_opcode c_loops] in B. rewrite EL4 in B. exact (brk_nil _ B).
+      * exact A4.
+  - (* statements *)
+    bok H s1 Hs. injection H as E4.
+    assert (Sp : exists C, sspec s0 st4 true NL NL C).
+    { rewrite <- E4. apply (scoped_stmts_sspec body Hb s0 s1 true NL NL Wb Hs).
+      rewrite E4. split; [exact I0|exact W0|symmetry; exact Em0|exact HNL|lia|]. intros _. unfold NL. lia. }
+    destruct Sp as [C [S Pp Rt]].
+    pose proof (sg_contig _ _ _ _ _ _ _ S) as Hc.
+    assert (NC : C <> []) by (eapply contig_nonempty; [exact Hc|lia]).
+    assert (LOn : forall G, loop_ok G st4 true NL) by (intros G; apply loop_ok_nil; exact EL4).
+    unfold fun_finish. fold st5.
+    destruct (last_instruction_is OPop st5) eqn:EP.
+    + (* the trailing OPop becomes OReturnValue *)
+      apply last_is_pop in EP. change (c_last st5) with (c_last st4) in EP.
+      destruct (exists_last NC) as (C0 & x & ->).
+      destruct (Pp EP C0 x eq_refl) as (-> & N0' & K0 & T0).
+      destruct (contig_snoc_inv _ _ _ _ Hc) as (Hc0 & _ & _). cbn [e_pc fst] in Hc0.
+      assert (Lr : code_len (remove_last_instruction st5) = code_len st4 - 1).
+      { rewrite remove_last_len; [reflexivity|change (code_len st5) with (code_len st4); lia]. }
+      set (st6 := emit_opcode OReturnValue (remove_last_instruction st5)).
+      assert (L6 : code_len st6 = code_len st4) by (unfold st6; rewrite len_emit1, Lr; lia).
+      exists (C0 ++ [(code_len st4 - 1, 1, true, NL + 1)]). split; [|split; [|split; [|split]]].
+      * rewrite L6. exact Hc.
+      * apply hd_ok_app; [exact N0'|]. pose proof (sg_hd _ _ _ _ _ _ _ S) as Hh.
+        destruct C0 as [|y C0]; [contradiction|exact Hh].
+      * intros X. apply app_eq_nil in X. destruct X as [X _]. exact (N0' X).
+      * eapply kfun_new_mono; [exact K0|]. intros y Hy. apply in_or_app. left. exact Hy.
+      * intros F K G KL GL y Hy. apply in_app_or in Hy. destruct Hy as [Hy|[<-|[]]].
+        -- assert (X : ent_ok F K G st4 true NL y).
+           { apply (T0 F K G KL); [intros z Hz; apply GL; apply in_or_app; left; exact Hz| |apply LOn|exact Hy].
+             apply (GL (code_len st4 - 1, 1, true, NL + 1)). apply in_or_app. right. left. reflexivity. }
+           pose proof (contig_range _ _ _ _ Hc0 Hy) as Ry.
+           apply (ent_ok_keeps F K G st4); [|lia| |exact X].
+           ++ intros i Hi. change (byte_at (set_loops st6 []) i) with (byte_at st6 i). unfold st6.
+              rewrite (app_of_old _ _ _ i (app_emit_opcode OReturnValue (remove_last_instruction st5))) by lia.
+              rewrite remove_last_byte by (change (code_len st5) with (code_len st4); lia). reflexivity.
+           ++ cbn [set_loops c_loops]. rewrite EL4. tauto.
+        -- apply (ent_ok_bytes F K G (set_loops st6 []) [byte_of_opcode OReturnValue]).
+           ++ intros k Hk. cbn [length] in Hk. assert (k = 0%nat) by lia. subst k. rewrite Z.add_0_r.
+              change (byte_at (set_loops st6 []) (code_len st4 - 1)) with (byte_at st6 (code_len st4 - 1)).
+              rewrite <- Lr. exact (app_of_head _ _ _ _ (app_emit_opcode OReturnValue (remove_last_instruction st5))).
+           ++ cbn [set_loops c_loops]. apply brk_nil.
+           ++ intros HB LF. apply iok_return_value; [exact HB|exact LF|lia].
+    + destruct (last_instruction_is OReturnValue st5) eqn:ER.
+      * (* ends in antwoord: nothing added *)
+        apply last_is_rv in ER. change (c_last st5) with (c_last st4) in ER.
+        exists C. split; [exact Hc|]. split; [exact (sg_hd _ _ _ _ _ _ _ S)|]. split; [exact NC|].
+        split; [exact (sg_kfun _ _ _ _ _ _ _ S)|].
+        intros F K G KL GL y Hy.
+        assert (X : ent_ok F K G st4 true NL y) by (apply (Rt ER F K G KL GL I (LOn G)); exact Hy).
+        pose proof (contig_range _ _ _ _ Hc Hy) as Ry.
+        apply (ent_ok_keeps F K G st4); [reflexivity|lia| |exact X].
+        cbn [set_loops c_loops]. rewrite EL4. tauto.
+      * (* OReturn added *)
+        assert (S2 : seg s0 (emit_opcode OReturn st4) true NL NL noex (C ++ [(code_len st4, 1, true, NL)])).
+        { eapply seg_app1; [exact S|apply seg_return; exact (fr_inv _ _ _ F4)
+                           |exact (emit1_frame OReturn st4 (fr_inv _ _ _ F4) (fr_wf _ _ _ F4))|lia|lia]. }
+        exists (C ++ [(code_len st4, 1, true, NL)]). split; [|split; [|split; [|split]]].
+        -- exact (sg_contig _ _ _ _ _ _ _ S2).
+        -- exact (sg_hd _ _ _ _ _ _ _ S2).
+        -- intros X. apply app_eq_nil in X. destruct X as [X _]. exact (NC X).
+        -- eapply kfun_new_mono; [exact (sg_kfun _ _ _ _ _ _ _ S)|]. intros y Hy. apply in_or_app. left. exact Hy.
+        -- intros F K G KL GL y Hy.
+           assert (X : ent_ok F K G (emit_opcode OReturn st4) true NL y).
+           { apply (sg_typed _ _ _ _ _ _ _ S2 F K G); [exact KL|exact GL|exact I| |exact Hy].
+             apply loop_ok_nil. exact EL4. }
+           intros A1 A2 A3 A4. apply X.
+           ++ exact A1.
+           ++ intros N. apply A2. cbn [set_loops c_loops]. apply brk_nil.
+           ++ intros B. exfalso. cbn [emit_opcode c_loops] in B. rewrite EL4 in B. exact (brk_nil _ B).
+           ++ exact A4.
+Qed.
+
+Lemma case_function : forall name params body, Forall Ps body -> Pe (EFunction name params body).
+Proof.
+  intros name params body IHb st st' m h LH Wb H P. cbn [wf_expr] in Wb.
+  pose proof (pr_inv _ _ _ _ _ P) as I0. pose proof (pr_wf _ _ _ _ _ P) as W0. pose proof (pr_h _ _ _ _ _ P) as H0.
+  pose proof (code_len_nonneg st) as N0.
+  rewrite ce_function in H.
+  (* the optional declaration of the name *)
+  assert (D : exists st1 sym, fun_enter name st = (st1, sym) /\ c_code st1 = c_code st /\ c_loops st1 = c_loops st /\
+              c_last st1 = c_last st /\ c_constants st1 = c_constants st /\ wf_tab (c_symbols st1) /\
+              mode_of st1 = mode_of st /\
+              match sym with
+              | Some s => define (c_symbols st) name = (c_symbols st1, s)
+              | None => c_symbols st1 = c_symbols st
+              end).
+  { unfold fun_enter. destruct (is_nil name).
+    - exists st, None. repeat (split; [reflexivity|]). split; [exact W0|]. split; reflexivity.
+    - destruct (define (c_symbols st) name) as [t1 sy] eqn:D.
+      destruct (define_spec _ _ _ _ W0 D) as (Wt & _ & _ & _ & _ & _ & _ & Lt & _).
+      exists (set_symbols st t1), (Some sy). repeat (split; [reflexivity|]). split; [exact Wt|]. split; [|reflexivity].
+      unfold mode_of, in_global_context. cbn [set_symbols c_symbols]. rewrite Lt. reflexivity. }
+  destruct D as (st1 & sym & ED & E1c & E1l & E1a & E1k & W1 & Em1 & Dsym). rewrite ED in H. cbv beta iota zeta in H.
+  assert (I1 : code_inv st1) by exact (code_inv_same st st1 I0 E1c E1a E1l).
+  assert (L1 : code_len st1 = code_len st) by (unfold code_len; rewrite E1c; reflexivity).
+  set (st2 := jump_ph OJump st1) in *.
+  pose proof (jump_ph_frame OJump st1 I1 W1) as F2. fold st2 in F2.
+  pose proof (len_emit3 OJump JUMP_PLACEHOLDER st1) as L2. fold (jump_ph OJump st1) in L2. fold st2 in L2.
+  set (t3 := fold_left (fun t p => fst (define t p)) params (new_context (c_symbols st2))) in *.
+  set (st3 := set_symbols st2 t3) in *. set (s0 := set_loops st3 []) in *.
+  bok H st4 H4. bok H tg Htg. bok H st7 H7. apply operand_ok in Htg. destruct Htg as [-> Ltg].
+  assert (W3 : wf_tab t3) by (apply wf_defines, new_context_wf; exact W1).
+  assert (Em0 : mode_of s0 = true).
+  { unfold mode_of, in_global_context. cbn [s0 st3 set_loops set_symbols c_symbols]. unfold t3.
+    rewrite CompilerNames.defines_new_context, app_length. cbn [length].
+    destruct (c_symbols st2) as [|c0 r] eqn:Es; [|cbn [length]; destruct (length r); reflexivity].
+    exfalso. destruct W1 as [X _]. apply X. exact Es. }
+  destruct (body_finished body IHb s0 st4 (c_loops st3) Wb H4 eq_refl W3 Em0) as [Cf (Hcf & Hhf & Nf & Kf & Tf)].
+  set (NL := Z.of_nat (c_max (current (c_symbols st4)))) in *.
+  set (st5 := set_loops st4 (c_loops st3)) in *. set (st6 := fun_finish st5) in *.
+  pose proof (code_inv_no_loops s0 eq_refl) as Is0.
+  pose proof (block_statement_frame body s0 st4 Wb Is0 W3 H4) as F4. pose proof (fr_len _ _ _ F4) as L4.
+  change (code_len s0) with (code_len st2) in *.
+  (* the end of the body *)
+  assert (Lo5 : c_loops st5 = c_loops st) by (cbn [st5 st3 set_loops set_symbols c_loops]; exact E1l).
+  assert (Bpre : forall i, 0 <= i < code_len st + 3 -> byte_at st5 i = byte_at st2 i).
+  { intros i Hi. change (byte_at st5 i) with (byte_at st4 i). apply (sp_pre _ _ _ (fr_ps _ _ _ F4)).
+    change (code_len s0) with (code_len st2). lia. }
+  assert (Bst : forall i, 0 <= i < code_len st -> byte_at st5 i = byte_at st i).
+  { intros i Hi. rewrite Bpre by lia. rewrite (sp_pre _ _ _ (fr_ps _ _ _ F2)) by lia. unfold byte_at. rewrite E1c. reflexivity. }
+  assert (L5 : code_len st5 = code_len st4) by reflexivity.
+  assert (I5 : binv (brk (c_loops st)) st5) by (eapply binv_grow; [exact I0|lia|exact Bst]).
+  destruct (fun_finish_facts _ st5 I5 ltac:(lia)) as (I6b & L6 & Lo6 & B6). fold st6 in I6b, L6, Lo6, B6.
+  assert (I6 : code_inv st6) by (unfold code_inv; rewrite Lo6, Lo5; exact I6b).
+  destruct (fun_finish_same st5) as [Sy6 Ky6]. fold st6 in Sy6, Ky6.
+  assert (W6 : wf_tab (c_symbols st6)) by (rewrite Sy6; exact (fr_wf _ _ _ F4)).
+  assert (B6' : forall k, (k < 3)%nat -> byte_at st6 (code_len st1 + Z.of_nat k) =
+              nth_error [byte_of_opcode OJump; JUMP_PLACEHOLDER mod 256; (JUMP_PLACEHOLDER / 256) mod 256] k).
+  { intros k Hk. rewrite B6 by lia. rewrite Bpre by lia. apply jump_ph_bytes. exact Hk. }
+  assert (P7 : patch_res (code_len st1) (code_len st6) st6 st7).
+  { eapply patch_facts; [exact H7|lia| |exact jump_byte_jump| | |exact I6|exact W6].
+    - pose proof (B6' 0%nat ltac:(lia)) as X. rewrite Z.add_0_r in X. exact X.
+    - exact (B6' 1%nat ltac:(lia)).
+    - exact (B6' 2%nat ltac:(lia)). }
+  pose proof (pt_len _ _ _ _ P7) as L7.
+  (* leaving the function's context *)
+  assert (G4 : sgrow t3 (c_symbols st4)).
+  { exact (mo_sym _ _ (block_statement_mono body (all_Ms body) _ _ H4 W3)). }
+  assert (Sy7 : c_symbols st7 = c_symbols st4).
+  { destruct (change_jump_same _ _ _ _ H7) as (X & _). rewrite X. exact Sy6. }
+  assert (LC : fst (leave_context (c_symbols st7)) = c_symbols st1).
+  { rewrite Sy7. destruct G4 as [ns G4]. exact (CompilerNames.grows_function _ _ _ _ G4). }
+  unfold fun_tail in H. destruct (leave_context (c_symbols st7)) as [t8 nl0] eqn:ELC. cbn [fst] in LC. subst t8.
+  assert (Enl : Z.of_nat nl0 = NL).
+  { unfold leave_context in ELC. injection ELC as _ <-. unfold NL. rewrite Sy7. reflexivity. }
+  bok H ip Hip. bok H nl Hnl. apply operand_ok in Hip. destruct Hip as [-> Lip].
+  apply operand_ok in Hnl. destruct Hnl as [-> Lnl]. rewrite Enl in *.
+  set (st8 := set_symbols st7 (c_symbols st1)) in *.
+  destruct (add_constant (KFun (code_len st3) NL) st8) as [st9 r] eqn:EA. bok H idx Hidx. subst r.
+  destruct (PoolProofs.pool_stable _ _ _ _ EA) as (Ri & (k' & Hn & _) & (ext & Ee & Hext) & (S1 & S2 & S3 & S4 & _)).
+  assert (Li : idx < zlength (c_constants st9)).
+  { assert (X : (Z.to_nat idx < length (c_constants st9))%nat) by (apply nth_error_Some; rewrite Hn; discriminate).
+    unfold zlength. lia. }
+  assert (I9 : code_inv st9).
+  { apply (code_inv_same st7 st9 (pt_inv _ _ _ _ P7)); [exact S2|exact S3|exact S4]. }
+  assert (W9 : wf_tab (c_symbols st9)) by (rewrite S1; exact W1).
+  assert (L9 : code_len st9 = code_len st6) by (unfold code_len; rewrite S2; exact L7).
+  (* the tail: OConst [OSet..; OConst] *)
+  set (st10 := emit_u16 idx (emit_opcode OConst st9)) in *.
+  assert (S10 : seg st9 st10 m LH h (ex m (code_len st10) (h + 1)) [(code_len st9, 3, m, h)]).
+  { apply (seg_const_at st9 st10 idx); [apply app_emit3|exact Ri|exact Li|exact I9|auto]. }
+  pose proof (app_frame _ _ _ (app_emit3 OConst idx st9) ltac:(zl3) I9 W9 eq_refl eq_refl) as F10. fold st10 in F10. change (zlength _) with 3 in F10.
+  assert (Sym' : c_symbols st' = c_symbols st1 /\ c_loops st' = c_loops st /\ c_constants st' = c_constants st9).
+  { destruct sym as [sy|].
+    - bok H st11 H11. injection H as <-. destruct (emit_sym_app _ _ _ _ H11) as ((_ & X1) & _ & X2 & X3 & _).
+      cbn [emit_u16 emit_opcode c_symbols c_loops c_constants]. rewrite X1, X2, X3.
+      cbn [st10 emit_u16 emit_opcode c_symbols c_loops c_constants]. rewrite S1, S4.
+      cbn [st8 set_symbols c_symbols c_loops]. rewrite (pt_loops _ _ _ _ P7), Lo6, Lo5. auto.
+    - injection H as <-. cbn [st10 emit_u16 emit_opcode c_symbols c_loops c_constants]. rewrite S1, S4.
+      cbn [st8 set_symbols c_symbols c_loops]. rewrite (pt_loops _ _ _ _ P7), Lo6, Lo5. auto. }
+  destruct Sym' as (Sy' & Lo' & Ky').
+  assert (Tail : exists Ct, seg st9 st' m LH h (ex m (code_len st') (h + 1)) Ct /\ frame 3 st9 st').
+  { destruct sym as [sy|].
+    - bok H st11 H11. injection H as E'.
+      pose proof (emit_sym_frame _ _ _ _ H11 (fr_inv _ _ _ F10) (fr_wf _ _ _ F10)) as F11.
+      set (st12 := emit_u16 idx (emit_opcode OConst st11)) in *.
+      pose proof (app_frame _ _ _ (app_emit3 OConst idx st11) ltac:(zl3) (fr_inv _ _ _ F11) (fr_wf _ _ _ F11) eq_refl eq_refl) as F12.
+      fold st12 in F12. change (zlength _) with 3 in F12.
+      assert (K11 : c_constants st11 = c_constants st9).
+      { destruct (emit_sym_app _ _ _ _ H11) as (_ & _ & _ & X & _). rewrite X. reflexivity. }
+      eexists. split.
+      + rewrite <- E'. eapply seg_app1; [|apply (seg_const_at st11 st12 idx);
+                                           [apply app_emit3|exact Ri| |exact (fr_inv _ _ _ F11)|auto]|exact F12|zl3|].
+        * eapply seg_app1; [exact S10| |exact F11|lia|pose proof (fr_len _ _ _ F10); lia].
+          replace h with (h + 1 - 1) at 2 by lia.
+          apply (seg_set_sym sy); [exact H11|exact (fr_inv _ _ _ F10)|lia|]. intros Sc.
+          assert (X : Z.of_nat (s_index sy) < h); [|lia].
+          eapply (define_bound _ _ _ _ st'); [exact W0|exact Dsym| |exact (pr_lb _ _ _ _ _ P)|exact Sc].
+          rewrite Sy'. apply sgrow_refl. exact W1.
+        * cbn [st12 emit_u16 emit_opcode c_constants]. rewrite K11. exact Li.
+        * pose proof (fr_len _ _ _ F10). pose proof (fr_len _ _ _ F11). lia.
+      + rewrite <- E'. eapply frame_weaken; [|exact (frame_trans _ _ _ _ _ (frame_trans _ _ _ _ _ F10 F11) F12)].
+        lia.
+    - injection H as <-. eexists. split; [exact S10|exact F10]. }
+  destruct Tail as (Ct & St & F9').
+  pose proof (sg_contig _ _ _ _ _ _ _ St) as Hct. pose proof (fr_len _ _ _ F9') as L9'.
+  destruct (contig_hd _ _ _ _ _ Hct ltac:(lia) (sg_hd _ _ _ _ _ _ _ St)) as (wk & Ct' & ECt).
+  set (J0 := (code_len st, 3, m, h) : centry).
+  exists (([J0] ++ Cf) ++ Ct).
+  assert (Hc : contig (code_len st) (([J0] ++ Cf) ++ Ct) (code_len st')).
+  { apply (contig_app _ _ (code_len st6)); [|rewrite <- L9; exact Hct].
+    apply (contig_app _ _ (code_len st2)); [|exact Hcf].
+    rewrite L2, L1. apply contig_single. lia. }
+  destruct (contig_hd _ _ _ _ _ Hcf ltac:(change (code_len s0) with (code_len st2); lia) Hhf) as (wf & Cf' & ECf).
+  split; [exact Hc|split; reflexivity| | |].
+  - (* function constants *)
+    intros ip' n' Hin. rewrite Ky', Ee in Hin. apply in_app_or in Hin. destruct Hin as [Hin|Hin].
+    + cbn [st8 set_symbols c_constants] in Hin. rewrite (pt_consts _ _ _ _ P7), Ky6 in Hin.
+      change (c_constants st5) with (c_constants st4) in Hin.
+      destruct (Kf ip' n' Hin) as [X|(X1 & w & X2)].
+      * left. cbn [s0 st3 st2 set_loops set_symbols jump_ph emit_u16 emit_opcode c_constants] in X. rewrite E1k in X. exact X.
+      * right. split; [exact X1|]. exists w. apply in_or_app. left. apply in_or_app. right. exact X2.
+    + destruct Hext as [->| ->]; [destruct Hin|]. destruct Hin as [Hin|[]]. injection Hin as <- <-.
+      right. split; [unfold NL; lia|]. exists wf. apply in_or_app. left. apply in_or_app. right.
+      rewrite ECf. left. reflexivity.
+  - apply brk_new_none; [exact I0|exact Lo'].
+  - (* typing *)
+    assert (By7 : forall i, 0 <= i < code_len st6 -> byte_at st' i = byte_at st7 i).
+    { intros i Hi. rewrite (sp_pre _ _ _ (fr_ps _ _ _ F9')) by lia. unfold byte_at. rewrite S2. reflexivity. }
+    assert (NB : forall p, code_len st <= p -> ~ brk (c_loops st') p).
+    { intros p Lp X. rewrite Lo' in X. destruct (bi_at _ _ I0 p X) as (_ & Y & _). lia. }
+    intros F K G KL GL HE LO x Hx. apply in_app_or in Hx. destruct Hx as [Hx|Hx]; [apply in_app_or in Hx; destruct Hx as [Hx|Hx]|].
+    + (* the jump over the body *)
+      destruct Hx as [<-|[]].
+      apply (ent_ok_bytes F K G st' (u16b OJump (code_len st6))); [|apply NB; lia|].
+      * rewrite <- L1. apply bytes_at_3.
+        -- rewrite By7 by lia. rewrite (pa_bytes _ _ _ (pt_patched _ _ _ _ P7)) by lia.
+           pose proof (B6' 0%nat ltac:(lia)) as X. rewrite Z.add_0_r in X. exact X.
+        -- rewrite By7 by lia. exact (pt_lo _ _ _ _ P7).
+        -- rewrite By7 by lia. exact (pt_hi _ _ _ _ P7).
+      * intros HB LF. eapply iok_jump; [exact HB|exact LF|pose proof (code_len_nonneg st6); lia|].
+        rewrite <- L9. apply (GL (code_len st9, wk, m, h)). apply in_or_app. right. rewrite ECt. left. reflexivity.
+    + (* the body *)
+      pose proof (contig_range _ _ _ _ Hcf Hx) as Rx. change (code_len s0) with (code_len st2) in Rx.
+      assert (X : ent_ok F K G (set_loops st6 []) true NL x).
+      { apply (Tf F K G); [|intros y Hy; apply GL; apply in_or_app; left; apply in_or_app; right; exact Hy|exact Hx].
+        rewrite Ky' in KL. pose proof (pool_ext_len st8 st9 (ex_intro _ ext Ee)) as Y.
+        cbn [st8 set_symbols c_constants] in Y. rewrite (pt_consts _ _ _ _ P7), Ky6 in Y.
+        change (c_constants st5) with (c_constants st4) in Y. lia. }
+      apply (ent_ok_gen F K G (set_loops st6 []) st' true NL m LH x); [|lia| | |exact X].
+      * intros i Hi. change (byte_at (set_loops st6 []) i) with (byte_at st6 i). rewrite By7 by lia.
+        apply (pa_bytes _ _ _ (pt_patched _ _ _ _ P7)); lia.
+      * intros B. exfalso. apply (NB (e_pc x)); [lia|exact B].
+      * intros B. exfalso. cbn [set_loops c_loops] in B. exact (brk_nil _ B).
+    + (* the constant (and the declaration) *)
+      apply (sg_typed _ _ _ _ _ _ _ St F K G KL); [|exact HE|exact LO|exact Hx].
+      intros y Hy. apply GL. apply in_or_app. right. exact Hy.
+Qed.
+
+(** * 5. The induction over the tree *)
+
+Theorem compile_typed : (forall e, Pe e /\ Psub e) /\ (forall s, Ps s).
+Proof.
+  apply expr_stmt_ind.
+  - intros l o r [Hl _] [Hr _]. split; [apply case_infix; assumption|exact I].
+  - intros o r [Hr _]. split; [apply case_prefix; assumption|exact I].
+  - intros z. split; [apply case_int|exact I].
+  - intros x. split; [apply case_float|exact I].
+  - intros b. split; [apply case_bool|exact I].
+  - intros c t alt [Hc _] Ht Ha. split; [apply case_if; assumption|exact I].
+  - intros x. split; [apply case_ident|exact I].
+  - intros n ps body Hb. split; [apply case_function; assumption|exact I].
+  - intros f args [Hf _] Ha. split; [apply case_call; assumption|exact I].
+  - intros l r [Hl Sl] [Hr _]. split; [|exact I]. destruct l;
+      try (intros st st' m h LH We H P; rewrite ce_assign_other in H by exact I; discriminate H).
+    + apply case_assign_ident. exact Hr.
+    + destruct Sl as [Ha Hi]. apply case_assign_index; assumption.
+  - intros s. split; [apply case_string|exact I].
+  - intros vs Hv. split; [apply case_array; assumption|exact I].
+  - intros b i [Hb _] [Hi _]. split; [apply case_index; assumption|split; assumption].
+  - intros c b [Hc _] Hb. split; [apply case_while; assumption|exact I].
+  - intros n e [He _]. apply case_slet. exact He.
+  - intros e [He _]. apply case_sreturn. exact He.
+  - intros e [He _]. apply case_sexpr. exact He.
+  - intros b Hb. apply case_sblock. exact Hb.
+  - exact case_sbreak.
+  - exact case_scontinue.
+Qed.
+
+Lemma all_Ps : forall b, Forall Ps b.
+Proof. intros b. apply Forall_forall. intros s _. exact (proj2 compile_typed s). Qed.
